@@ -10,7 +10,7 @@ partial def kwBranches (j : Json) (depth : Nat) : List String :=
     let here := o.toList.filterMap (fun (k, _) =>
       if ["type", "nullable", "enum", "format", "minimum", "maximum", "exclusiveMinimum", "exclusiveMaximum", "multipleOf",
           "minLength", "maxLength", "pattern", "minItems", "maxItems", "uniqueItems", "items", "properties", "required",
-          "additionalProperties", "minProperties", "maxProperties", "allOf", "anyOf", "oneOf", "not"].contains k
+          "additionalProperties", "minProperties", "maxProperties", "allOf", "anyOf", "oneOf", "not", "discriminator", "$ref"].contains k
       then some (if depth == 0 then s!"kw.{k}" else s!"kw.nested.{k}") else none)
     let deeper := o.toList.flatMap (fun (k, v) =>
       match v with
@@ -27,7 +27,7 @@ def valKind : J → String
 /-- request: {schema, value, regex:[[p,s,b]], formats:[[f,s,b]]} -/
 def handle (j : Json) : Json :=
   let sj := getD j "schema" (Json.mkObj [])
-  let s := toS sj
+  let s := caseSchema j
   let v := toJ (getD j "value" Json.null)
   let env := envOf j
   let m := visit env s v
